@@ -23,6 +23,7 @@ namespace vh
     static std::string dense(Tok& t, std::size_t rows, std::size_t cols);
     static std::string forcing(Tok& t, std::size_t ncell, std::size_t ns);
     static std::string forcingflat(Tok& t, std::size_t ncell, std::size_t ns);
+    static std::string norm(Tok& t, std::size_t ncell, std::size_t ns);
     static std::string rates(Tok& t, std::size_t ncell, std::size_t nproc);
   };
 
